@@ -338,6 +338,18 @@ def euler_case(j, tf, axes, form, ai, aj, ak):
                     abs(float(q @ q) - 1.0), RT, dict(case, q=q, isprecise=precise))
             j.check(qk + " law=roundtrip_rotation", "quaternion_from_matrix describes a different rotation",
                     dev(quat_matrix_ref(q), Rref), RT, dict(case, q=q, isprecise=precise))
+            # composite route matrix -> quaternion -> Euler angles -> matrix: the quaternion carries
+            # ~1e-16 of ABSOLUTE noise, so near the gimbal configuration the angles are only
+            # determined to eps / v - but the ROTATION they generate must still be the same one.
+            # Judged with a flat 1e-6 at (and within 1e-6 of) the gimbal configuration, where a
+            # careful extraction is good to ~1e-8, and with inverse_tol elsewhere.
+            a4 = tf.euler_from_quaternion(q, arg)
+            R4 = euler_ref(a4[0], a4[1], a4[2], axes)
+            tol4 = 1e-6 if gc != "regular" else inverse_tol(aj, axes)
+            j.check("fn=euler_from_quaternion_after_quaternion_from_matrix isprecise=%s angles=%s law=roundtrip_rotation"
+                    % (precise, "gimbal_" + gc if gc != "regular" else "regular"),
+                    "matrix -> quaternion_from_matrix -> euler_from_quaternion gives angles of a different rotation",
+                    dev(R4, Rref), tol4, dict(case, q=q, isprecise=precise, returned=list(map(float, a4))))
         except Exception as e:
             j.exception("fn=quaternion_from_matrix isprecise=%s" % precise, e, case)
 
